@@ -2004,7 +2004,25 @@ pub mod st {
             Arg::Lit(s) => Sx::Str(s.clone()),
             Arg::Int(i) => big(*i),
             Arg::Char(c) => Sx::Char(*c),
-            Arg::Chars(cs) => chars_sx(if op == "vector->string" { "vector" } else { "list" }, cs),
+            // the characters reach the procedure in different representations: immediate
+            // (arguments of `vector`), or through pairs (elements taken out of a list are
+            // references to heap cells), or out of another string
+            Arg::Chars(cs) => {
+                let variant = (cs.len() + cs.first().map(|c| *c as usize).unwrap_or(0)) % 3;
+                if op == "vector->string" {
+                    match variant {
+                        0 => chars_sx("vector", cs),
+                        1 => Sx::call("list->vector", vec![chars_sx("list", cs)]),
+                        _ => Sx::call("apply", vec![Sx::sym("vector"), chars_sx("list", cs)]),
+                    }
+                } else {
+                    match variant {
+                        0 => chars_sx("list", cs),
+                        1 => Sx::call("vector->list", vec![chars_sx("vector", cs)]),
+                        _ => Sx::call("string->list", vec![chars_sx("string", cs)]),
+                    }
+                }
+            }
         }
     }
 
@@ -2043,7 +2061,7 @@ pub mod st {
                 Some(n) if n < POOL => Ok(Arg::S(n)),
                 _ => Err(format!("unknown name {}", s)),
             },
-            Sx::List(v) if !v.is_empty() && matches!(v[0].as_sym(), Some("list") | Some("vector")) => {
+            Sx::List(v) if !v.is_empty() && matches!(v[0].as_sym(), Some("list") | Some("vector") | Some("string")) => {
                 let mut cs = vec![];
                 for e in v[1..].iter() {
                     match e {
@@ -2053,6 +2071,9 @@ pub mod st {
                 }
                 Ok(Arg::Chars(cs))
             }
+            // the other spellings of a character container (see arg_sx)
+            Sx::List(v) if v.len() == 2 && matches!(v[0].as_sym(), Some("list->vector") | Some("vector->list") | Some("string->list")) => parse_arg(&v[1]),
+            Sx::List(v) if v.len() == 3 && v[0].as_sym() == Some("apply") && v[1].as_sym() == Some("vector") => parse_arg(&v[2]),
             o => Err(format!("unsupported argument {}", o)),
         }
     }
